@@ -178,6 +178,16 @@ func runExpScenario(sc expScenario, windowSec int) (res expResult) {
 			}
 		case "SetPreserve":
 			err = ds.Set(a.Key, exp, &sgbucket.UpsertOptions{PreserveExpiry: true}, body)
+			if err == nil && !m.live && deadlineBefore != 0 && now < deadlineBefore+expGuard {
+				// the document was due moments ago and may or may not have been removed yet: this write
+				// either preserved a deadline that is already over (the document goes at once) or
+				// wrote over the tombstone; what was read back could be the tombstone of the former.
+				// Not judged until the next write that states its own expiry; whatever it is now may
+				// still produce one deletion event.
+				m.live, m.deadline = false, 0
+				m.lives++
+				break
+			}
 			if err == nil {
 				if !m.live {
 					m.deadline = newDeadline() // nothing to preserve: the expiry given applies
